@@ -8,6 +8,7 @@ import (
 	"database/sql"
 	"fmt"
 	"net/http"
+	"time"
 
 	"github.com/uptrace/bun"
 	"github.com/uptrace/bun/dialect/pgdialect"
@@ -109,6 +110,9 @@ func New(o Options) *Env {
 	}
 	opts := []systemcontroller.Option{
 		systemcontroller.WithEnableFeatures(true),
+		// the service retries a request the database refused for lack of connections (serve: 10 retries, 100 ms apart);
+		// here as well, with a delay that does not slow the checks down
+		systemcontroller.WithDatabaseRetryConfiguration(systemcontroller.DatabaseRetryConfiguration{MaxRetry: 10, Delay: 200 * time.Microsecond}),
 		systemcontroller.WithParser(machineParser, machineParser, interpreterParser),
 	}
 	if o.Enforcement != "" {
